@@ -22,6 +22,9 @@ func main() {
 	if d := os.Getenv("VERIF_DIR"); d != "" {
 		verifDir = d
 	}
+	if d := os.Getenv("VERIF_REPO"); d != "" {
+		repoRoot = d
+	}
 	switch os.Args[1] {
 	case "check":
 		os.Exit(cmdCheck(os.Args[2:]))
